@@ -27,6 +27,12 @@ type ClientTransport struct {
 	callbacks *transport.Callbacks
 	pollExit  chan any
 	once      sync.Once
+
+	// Closed when the poll loop has ended: its last request has been answered
+	// and what the answer carried has been delivered.
+	pollDone    chan struct{}
+	pollStarted chan struct{}
+	startOnce   sync.Once
 }
 
 func NewClientTransport(
@@ -43,6 +49,8 @@ func NewClientTransport(
 		httpClient:      httpClient,
 		callbacks:       callbacks,
 		pollExit:        make(chan any),
+		pollDone:        make(chan struct{}),
+		pollStarted:     make(chan struct{}),
 	}
 }
 
@@ -87,6 +95,15 @@ func (t *ClientTransport) Handshake() (hr *parser.HandshakeResponse, err error) 
 }
 
 func (t *ClientTransport) Run() {
+	started := false
+	t.startOnce.Do(func() {
+		close(t.pollStarted)
+		started = true
+	})
+	if started {
+		defer close(t.pollDone)
+	}
+
 	if t.initialPacket != nil {
 		t.callbacks.OnPacket(t.initialPacket)
 		// Set to nil for garbage collection.
@@ -211,10 +228,19 @@ func (t *ClientTransport) Send(packets ...*parser.Packet) {
 	}
 }
 
+// Discard stops polling and, like `pause` of the reference client, waits until the request that is in
+// flight has been answered and its packets delivered: whoever discards the transport (an upgrade) can
+// rely on everything the server sent over polling having arrived before it goes on.
 func (t *ClientTransport) Discard() {
 	t.once.Do(func() {
 		close(t.pollExit)
 	})
+	select {
+	case <-t.pollStarted:
+		<-t.pollDone
+	default:
+		// The poll loop was never started: nothing is in flight.
+	}
 }
 
 func (t *ClientTransport) close(err error) {
